@@ -3,7 +3,8 @@ From Goat Require Import Base.Prelude Model.BtcParams Cases.Common.
 
 Definition ptuple : Type := (N * N * N * N)%type.               (* conf, min, rate, cap *)
 (* initial parameters, request lists, probes of genesis validation; observed: parameters after every list, then
-   for every probe (1,0,0,0) when the real Params.Validate accepts it and (0,0,0,0) otherwise *)
+   for every probe (a,b,c,0): a = Params.Validate accepts, b = GenesisState.Validate of a genesis with a relayer key accepts,
+   c = the module's InitGenesis at a non-zero height does not panic (first probe of a case only, else 2) *)
 Definition pcase : Type := (ptuple * list (list (N * N) * list N * list N) * list ptuple * list ptuple)%type.
 Definition to_bp (t : ptuple) : bparams := let '(c, m, r, k) := t in mkBP c m r k.
 Definition of_bp (p : bparams) : ptuple := (bp_conf p, bp_min p, bp_rate p, bp_cap p).
@@ -14,7 +15,12 @@ Fixpoint p_scan (p : bparams) (h : list (list (N * N) * list N * list N)) : list
   end.
 Definition p_model (c : pcase) : list ptuple :=
   let '(i, h, probes, _) := c in
-  p_scan (to_bp i) h ++ map (fun t => ((if params_validate (to_bp t) then 1 else 0), 0, 0, 0)) probes.
+  let vb t := if params_validate (to_bp t) then 1 else 0 in
+  p_scan (to_bp i) h ++
+  match probes with
+  | [] => []
+  | t0 :: rest => (vb t0, vb t0, vb t0, 0) :: map (fun t => (vb t, vb t, 2, 0)) rest
+  end.
 Definition p_observed (c : pcase) : list ptuple := let '(_, _, _, o) := c in o.
 Definition ptuple_eqb (a b : ptuple) : bool :=
   let '(a1, a2, a3, a4) := a in let '(b1, b2, b3, b4) := b in
